@@ -45,7 +45,8 @@ def parseOpd (t : String) : Except String Opd :=
   let hx (s : String) : Nat := (Driver.parseHex? s).getD 0
   match f with
   | "R" :: name :: rt :: sz :: fl :: rm :: wm :: em :: fixed :: rest =>
-      .ok (.reg name rt.toNat! sz.toNat! (hx fl) (hx rm) (hx wm) (hx em) fixed (String.intercalate ":" rest))
+      -- mask registers report size 0 in their signature: they are 8 bytes
+      .ok (.reg name rt.toNat! (if rt.toNat! == 16 && sz.toNat! == 0 then 8 else sz.toNat!) (hx fl) (hx rm) (hx wm) (hx em) fixed (String.intercalate ":" rest))
   | ["M", sz, sig, base, index, disp, fl] => .ok (.mem sz.toNat! (hx sig) base index (disp.toInt?.getD 0) (hx fl))
   | ["I", v] => .ok (.imm v)
   | ["L", id] => .ok (.label id.toNat!)
@@ -189,7 +190,7 @@ def moveCap (n : String) : Nat :=
 /-- instruction names the rewriter may substitute (x86rapass.cpp rewrite(): reg->mem patched forms, VEX->EVEX) -/
 def nameEquiv (pre post : String) : Bool :=
   pre == post ||
-  [("movd", "mov"), ("vmovd", "mov"), ("kmovd", "mov"), ("movq", "mov"), ("vmovq", "mov"), ("kmovq", "mov"), ("kmovb", "movzx"), ("vmovw", "movzx"),
+  [("movd", "mov"), ("vmovd", "mov"), ("kmovd", "mov"), ("movq", "mov"), ("vmovq", "mov"), ("kmovq", "mov"), ("kmovb", "movzx"), ("kmovw", "movzx"), ("vmovw", "movzx"),
    ("vbroadcastf128", "vbroadcastf32x4"), ("vbroadcasti128", "vbroadcasti32x4"), ("vextractf128", "vextractf32x4"), ("vextracti128", "vextracti32x4"),
    ("vinsertf128", "vinsertf32x4"), ("vinserti128", "vinserti32x4"), ("vmovdqa", "vmovdqa32"), ("vmovdqu", "vmovdqu32"), ("vpand", "vpandd"),
    ("vpandn", "vpandnd"), ("vpor", "vpord"), ("vpxor", "vpxord"), ("vroundpd", "vrndscalepd"), ("vroundps", "vrndscaleps"),
@@ -214,7 +215,7 @@ def twinVSize (c : Ctx) : Option Opd → Nat
   | some (.reg name ..) => match virtLoc name with | some l => c.vsz l | none => 0
   | _ => 0
 
-def addReg (c : Ctx) (post : Bool) (t : TI) (name : String) (rtype size flags wmask emask : Nat) (fixed esig : String) (tw : Option Opd) : TI :=
+def addReg (c : Ctx) (post : Bool) (t : TI) (name : String) (rtype size flags rmask wmask emask : Nat) (fixed esig : String) (tw : Option Opd) : TI :=
   match regLoc post name with
   | none => { t with bad := some s!"register {name} in the {if post then "allocated" else "virtual"} program" }
   | some loc =>
@@ -224,8 +225,9 @@ def addReg (c : Ctx) (post : Bool) (t : TI) (name : String) (rtype size flags wm
     let partialW := isW && (byteMask vs &&& ((wmask ||| emask) ^^^ (2 ^ 64 - 1))) != 0
     let t := if isR || partialW then { t with reads := t.reads ++ [loc] } else t
     let t := if isW then { t with writes := t.writes ++ [loc] } else t
-    let t := if size > vs && vs != 0 && isR then { t with bad := some s!"reads {size} bytes of a {vs}-byte virtual register" } else t
-    { t with key := t.key ++ [s!"r{rtype}/{size}/{flags &&& 0x19b}/{if isW then wmask else 0}/{if isW then emask else 0}/{fixed}/{esig}"] }
+    let t := if vs != 0 && isR && (rmask &&& (byteMask vs ^^^ (2 ^ 64 - 1))) != 0 && size > vs then
+      { t with bad := some s!"reads {size} bytes of a {vs}-byte virtual register" } else t
+    { t with key := t.key ++ [s!"r{rtype}/{size}/{flags &&& 0x18b}/{if isW then wmask ||| emask else 0}/{fixed}/{esig}"] }
 
 /-- one operand; `own` = the operand, `tw` = twin operand of the virtual program (same index) -/
 def addOpd (c : Ctx) (post : Bool) (t : TI) (own : Opd) (tw : Option Opd) (isTarget : Bool) : TI :=
@@ -233,7 +235,7 @@ def addOpd (c : Ctx) (post : Bool) (t : TI) (own : Opd) (tw : Option Opd) (isTar
   | .none => { t with key := t.key ++ ["-"] }
   | .imm v => { t with key := t.key ++ [s!"i{v}"] }
   | .label id => if isTarget then { t with key := t.key ++ ["target"] } else { t with key := t.key ++ [s!"l{id}"] }
-  | .reg name rtype size flags _ wmask emask fixed esig => addReg c post t name rtype size flags wmask emask fixed esig tw
+  | .reg name rtype size flags rmask wmask emask fixed esig => addReg c post t name rtype size flags rmask wmask emask fixed esig tw
   | .mem size sig base index disp flags =>
     let memR := flags.testBit 0
     let memW := flags.testBit 1
@@ -250,7 +252,7 @@ def addOpd (c : Ctx) (post : Bool) (t : TI) (own : Opd) (tw : Option Opd) (isTar
         -- a memory operand cannot zero-extend: if the register form extends into live bytes of the virtual register the
         -- two forms are different functions (the key differs, so the pair is refused)
         let lost := memW && (byteMask vs &&& remask &&& (rwmask ^^^ (2 ^ 64 - 1))) != 0
-        { t with key := t.key ++ [s!"r{rtype}/{rsize}/{rflags &&& 0x19b}/{if memW then rwmask else 0}/{if memW then remask else 0}/{rfixed}/{resig}{if lost then "/memform-does-not-zero-extend" else ""}"] }
+        { t with key := t.key ++ [s!"r{rtype}/{rsize}/{rflags &&& 0x18b}/{if memW then rwmask ||| remask else 0}/{rfixed}/{resig}{if lost then "/memform-does-not-zero-extend" else ""}"] }
     | true, none, some sl =>
       -- inserted instruction addressing a stack slot: a location
       let t := if memR then { t with reads := t.reads ++ [sl] } else t
@@ -681,7 +683,12 @@ def succs (c : Ctx) (pre post : Prog2) (p q : Nat) (E : Rel) : Except String (Li
     let tP := pre.tags.getD p 0
     let tQ := post.tags.getD q 0
     let isRetPair := match iP, iQ with | .ret _, .ret _ => true | _, _ => false
-    if (tQ != 0 && tP == tQ) || isRetPair then
+    let preDeleted := tP != 0 && tP < 10000000 && tP != tQ && !(post.tags.contains tP)
+    if preDeleted && (match iP with | .move .. => true | _ => false) then
+      match iP with
+      | .move dP sP _ => .ok ([(p + 1, q, preMoveE E dP sP)], true)
+      | _ => .error "deleted"
+    else if (tQ != 0 && tP == tQ) || isRetPair then
       match iP, iQ with
       | .op _ _ wP cP _ _, .op _ _ wQ cQ _ _ => .ok ([(p + 1, q + 1, twinE E wQ cQ wP cP)], false)
       | .move dP _ _, .move dQ _ _ => .ok ([(p + 1, q + 1, (dQ, dP) :: kill E [dQ] [dP])], false)
@@ -768,8 +775,8 @@ def slotAccesses (c : Ctx) (postN : Array Node) (twinOf : Nat → Option Node) :
             if tb.startsWith "h" then
               let vid := (tb.drop 1).toString.toNat?.getD 0
               some ((Int.toNat (Int.ofNat sl - d0)), c.vsize.getD vid 0, true)
-            else some (sl, (if msz != 0 then msz else regSize), false)
-          | _ => some (sl, (if msz != 0 then msz else regSize), false)
+            else some (sl, (if msz != 0 then msz else min (moveCap n.name) regSize), false)
+          | _ => some (sl, (if msz != 0 then msz else min (moveCap n.name) regSize), false)
       | _ => none
 
 def overlapping (acc : List (Nat × Nat × Bool)) : Option String :=
